@@ -16,6 +16,10 @@ use crate::schedx::{CaseInfo, Judgement};
 
 #[derive(Clone, Debug)]
 pub struct Case {
+    /// (process cases) every opener reads its own file through a second descriptor while inside
+    pub second_fd: bool,
+    /// the openers are real child processes stepped through pipes (c13p) instead of threads
+    pub procs: bool,
     /// this opener's first file extension (the allocation that initialises a new file) fails with ENOSPC
     pub init_fault: Option<usize>,
     /// one blocking lock request may be interrupted by a signal (EINTR) in each execution
@@ -28,14 +32,20 @@ pub struct Case {
 pub fn cases(tier: Tier) -> Vec<Case> {
     let q = tier == Tier::Quick;
     vec![
-        Case { init_fault: None, eintr: false, openers: 2, file_exists: true, bound: if q { 6 } else { 12 } },
-        Case { init_fault: None, eintr: false, openers: 2, file_exists: false, bound: if q { 4 } else { 8 } },
-        Case { init_fault: None, eintr: false, openers: 3, file_exists: true, bound: if q { 2 } else { 3 } },
-        Case { init_fault: None, eintr: false, openers: 3, file_exists: false, bound: if q { 2 } else { 3 } },
-        Case { init_fault: None, eintr: true, openers: 2, file_exists: true, bound: if q { 3 } else { 6 } },
-        Case { init_fault: None, eintr: true, openers: 3, file_exists: false, bound: if q { 1 } else { 2 } },
-        Case { init_fault: Some(0), eintr: false, openers: 3, file_exists: false, bound: if q { 2 } else { 3 } },
-        Case { init_fault: Some(1), eintr: false, openers: 3, file_exists: false, bound: if q { 1 } else { 2 } },
+        Case { second_fd: false, procs: false, init_fault: None, eintr: false, openers: 2, file_exists: true, bound: if q { 6 } else { 12 } },
+        Case { second_fd: false, procs: false, init_fault: None, eintr: false, openers: 2, file_exists: false, bound: if q { 4 } else { 8 } },
+        Case { second_fd: false, procs: false, init_fault: None, eintr: false, openers: 3, file_exists: true, bound: if q { 2 } else { 3 } },
+        Case { second_fd: false, procs: false, init_fault: None, eintr: false, openers: 3, file_exists: false, bound: if q { 2 } else { 3 } },
+        Case { second_fd: false, procs: false, init_fault: None, eintr: true, openers: 2, file_exists: true, bound: if q { 3 } else { 6 } },
+        Case { second_fd: false, procs: false, init_fault: None, eintr: true, openers: 3, file_exists: false, bound: if q { 1 } else { 2 } },
+        Case { second_fd: false, procs: false, init_fault: Some(0), eintr: false, openers: 3, file_exists: false, bound: if q { 2 } else { 3 } },
+        Case { second_fd: false, procs: false, init_fault: Some(1), eintr: false, openers: 3, file_exists: false, bound: if q { 1 } else { 2 } },
+        // the same bodies as real processes under the kernel's own flock
+        Case { second_fd: false, procs: true, init_fault: None, eintr: false, openers: 2, file_exists: true, bound: if q { 4 } else { 12 } },
+        Case { second_fd: false, procs: true, init_fault: None, eintr: false, openers: 2, file_exists: false, bound: if q { 4 } else { 8 } },
+        Case { second_fd: false, procs: true, init_fault: None, eintr: false, openers: 3, file_exists: false, bound: if q { 2 } else { 3 } },
+        Case { second_fd: true, procs: true, init_fault: None, eintr: false, openers: 2, file_exists: true, bound: if q { 3 } else { 6 } },
+        Case { second_fd: false, procs: true, init_fault: Some(0), eintr: false, openers: 3, file_exists: false, bound: if q { 1 } else { 2 } },
     ]
 }
 
@@ -43,8 +53,8 @@ pub fn case_infos(tier: Tier) -> Vec<CaseInfo> {
     cases(tier)
         .iter()
         .map(|c| CaseInfo {
-            label: format!("{}openers-{}{}-c{}", c.openers, if c.file_exists { "existing" } else { "absent" }, if c.eintr { "-one-EINTR" } else if let Some(i) = c.init_fault { if i == 0 { "-initfail0" } else { "-initfail1" } } else { "" }, c.bound),
-            describe: json!({"openers": c.openers, "file": if c.file_exists { "exists (empty database, closed)" } else { "does not exist yet" }, "opener_body": "open(path); inside += 1; commit own marker; read all markers; yield; inside -= 1; close", "preemption_bound": c.bound}),
+            label: format!("{}{}openers-{}{}-c{}", if c.procs { "processes-" } else { "" }, c.openers, if c.file_exists { "existing" } else { "absent" }, if c.second_fd { "-second-descriptor" } else if c.eintr { "-one-EINTR" } else if let Some(i) = c.init_fault { if i == 0 { "-initfail0" } else { "-initfail1" } } else { "" }, c.bound),
+            describe: json!({"openers_are": if c.procs { "child processes released one system call at a time; flock answered by the kernel" } else { "threads; flock modelled by the scheduler" }, "openers": c.openers, "file": if c.file_exists { "exists (empty database, closed)" } else { "does not exist yet" }, "opener_body": "open(path); inside += 1; commit own marker; read all markers; yield; inside -= 1; close", "preemption_bound": c.bound}),
         })
         .collect()
 }
@@ -81,6 +91,10 @@ fn markers(tx: &jammdb::Tx, n: usize) -> Result<Vec<usize>, String> {
 }
 
 pub fn run_one(case: &Case, path: &str, prefix: &[u8], policy: RwPolicy) -> (ExecResult, Vec<Judgement>, String) {
+    if case.procs {
+        let pc = crate::c13p::PCase { openers: case.openers, file_exists: case.file_exists, init_fault: case.init_fault, second_fd: case.second_fd };
+        return crate::c13p::run_one(&pc, path, prefix);
+    }
     let _ = std::fs::remove_file(path);
     let cfg = Cfg { num_pages: 16, ..Cfg::default() };
     if case.file_exists {
